@@ -75,6 +75,11 @@ def gen_table(rng, flavour=None):
         {"aid": 3, "inherited": True},
         {"aid": 5, "ty": INT, "default": rng.choice([None, V(1)]), "decl": decl()},
     ]}
+    if flavour == "wide":        # Union and Optional[spec] positions
+        k2_attrs.append({"aid": 6, "ty": ("union", INT, STR), "default": rng.choice([None, V(1), S(7)]),
+                         "decl": rng.choice(["plain", "Attr"])})
+        k2_attrs.append({"aid": 8, "ty": ("opt", ("spec", 1)), "default": rng.choice([None, NONE])})
+        k3["attrs"][-1:-1] = [{"aid": 6, "inherited": True}, {"aid": 8, "inherited": True}]
     # a dnc flag is a class-level decorator argument: inherited attributes get
     # re-built with the subclass's own (empty) do_not_copy list, so drop it there
     table = [k1, k2, k3]
@@ -187,6 +192,14 @@ class Hist:
         if t == ("opt", INT):
             return self.rng.choice([NONE, V(1), V(2)]) if not bad else S(7)
         if t == ("spec", 1):
+            return self.k1_value(bad)
+        if t == ("union", INT, STR):
+            if bad:
+                return self.rng.choice([NONE, self.alloc(("list", [V(1)])), ("atom", 0)])
+            return self.rng.choice([V(2), S(8), ("bool", True)])
+        if t == ("opt", ("spec", 1)):
+            if not bad and self.rng.random() < 0.3:
+                return NONE
             return self.k1_value(bad)
         if t == ("list", INT):
             return self.list_int(bad) if self.rng.random() < 0.9 else self.rng.choice([NONE, V(5)])
